@@ -37,6 +37,29 @@ Example C17_accepts_iff_documented_nonvacuous :
                 accepts_shape r [4; 3] = Bad).
 Proof. split; [exact doc_rows_have_setters|]. split; eexists; (split; [vm_compute; reflexivity|]); repeat split. Qed.
 
+(* whole assignments.  For every documented array attribute and every well-formed input -- None, a value that is not
+   list/tuple/ndarray, one that numpy cannot convert to float, or a float array of ANY shape with ANY rational
+   entries -- the translated setter (validator + value guards + the rest of the setter body) stores the value iff the
+   documentation allows it (shape, None, positive sizes, valid cylinder segment) and otherwise raises the library's
+   input error; it never raises a foreign exception.  Exclusion: an empty leading axis on the three gap rows. *)
+Theorem C17_assign_iff_documented : forall d r inp,
+  In d doc_table -> find_setter (d_class d) (d_attr d) = Some r -> wf_vinput inp ->
+  gap_row d && input_empty_rows inp = false ->
+  (doc_accepts d inp = true -> exists v, assign_vec r inp = Stored v) /\
+  (doc_accepts d inp = false -> assign_vec r inp = Rejected).
+Proof. exact assign_iff_documented_lemma. Qed.
+Print Assumptions C17_assign_iff_documented.
+
+Example C17_assign_iff_documented_nonvacuous :
+  (exists r, find_setter "CylinderSegment" "dimension" = Some r /\
+     assign_vec r (IArray [5] [1; 2; 1; 0; 360]%Q) = Stored (Some ([5], [1; 2; 1; 0; 360]%Q)) /\
+     assign_vec r (IArray [5] [2; 1; 1; 0; 360]%Q) = Rejected /\
+     assign_vec r (IArray [5] [1; 2; 1; 0; 361]%Q) = Rejected /\ assign_vec r INone = Stored None)
+  /\ (exists r, find_setter "BaseGeo" "position@init" = Some r /\
+     assign_vec r (IArray [1; 3] [1; 2; 3]%Q) = Stored (Some ([1; 3], [1; 2; 3]%Q)) /\
+     assign_vec r (IArray [0; 3] []) = Crashed /\ assign_vec r INone = Rejected).
+Proof. split; eexists; (split; [vm_compute; reflexivity|]); repeat split. Qed.
+
 (* geometry: the translated CylinderSegment guard rejects exactly the invalid region named by the property (negative
    sizes, inner radius above the outer one, reversed or more than 360 degree angle range), for all rationals *)
 Theorem C17_cylinder_segment_guard : forall r1 r2 h p1 p2 : Q,
